@@ -8,6 +8,8 @@ Paths: data dependent branches fork by re-execution with a decision prefix (see 
 UB obligations (nsw/nuw, shifts, div, bounds, llvm.assume, unreachable) are checked on every path; a *possible* UB on symbolic
 values is recorded with a model and the path continues under its negation."""
 import struct, math, ctypes, sys, time
+import numpy as np
+LD = np.longdouble      # x86_fp80 values (concrete only): numpy's long double is the x87 80-bit format on x86-64
 from fractions import Fraction
 import z3
 from irparse import *
@@ -40,7 +42,14 @@ class F:
 def fsym(name): return F('sym', name)
 def isF(x): return isinstance(x, F)
 def _fkey(a): return (1, a.id) if isF(a) else (0, struct.pack('<d', a))
+def ld_from_bits(v):
+    return np.frombuffer(v.to_bytes(10, 'little') + bytes(6), dtype=LD)[0]
 def fbin(op, a, b):
+    if isinstance(a, LD) or isinstance(b, LD):
+        if isF(a) or isF(b): raise Unsupported('x86_fp80 arithmetic on a symbolic value')
+        a = LD(a); b = LD(b)
+        with np.errstate(all='ignore'):
+            return a + b if op == 'fadd' else a - b if op == 'fsub' else a * b if op == 'fmul' else a / b
     if not isF(a) and not isF(b):
         if op == 'fadd': return a + b
         if op == 'fsub': return a - b
@@ -288,12 +297,25 @@ class Machine:
     def read_ints(s, p, n, w=32): return [s.load(IT(w), Ptr(p.b, p.o + (w // 8) * i)) for i in range(n)]
     def assume(s, e):
         s.pc.append(e); s.sol.add(e)
+    def reachable_from_globals(s):
+        """ids of blocks reachable through stored pointers from mutable non-thread_local globals (i.e. memory other threads can reach)"""
+        seen = set(); work = [b for b, blk in s.blocks.items() if blk.kind == 'global']
+        while work:
+            b = work.pop()
+            if b in seen: continue
+            seen.add(b)
+            for (n, v) in s.blocks[b].cells.values():
+                if isinstance(v, Ptr) and v.b not in seen and v.b in s.blocks and s.blocks[v.b].kind not in ('func',): work.append(v.b)
+        return seen
 
     # ------------------------------------------------------------ constants
     def const(s, t, v, regs=None):
         k = v[0]
         if k == 'l': return regs[v[1]]
-        if k == 'c': return v[1]
+        if k == 'c':
+            c = v[1]
+            if type(c) is tuple and c[0] == 'fp80': return ld_from_bits(c[1])
+            return c
         if k == 'g':
             n = v[1]
             if n in s.gaddr: return Ptr(s.gaddr[n], 0)
@@ -371,7 +393,7 @@ class Machine:
     def store(s, t, v, p, init=False):
         n = sizeof(t); b = s.chk(p, n, True); o = p.o
         if isBV(o):
-            if s.trace_stores: s.stores.append((p.b, None, n))
+            if s.trace_stores: s.stores.append((p.b, None, n, s.locks_held))
             for k in range(0, b.size - n + 1, n):
                 c = z3.simplify(z3.And(*s.pc_tail(), o.e == k)) if False else z3.simplify(o.e == k)
                 if z3.is_false(c): continue
@@ -380,7 +402,7 @@ class Machine:
                 if z3.is_true(c): s._store1(t, v, b, k, n); continue
                 s._store1(t, s.ite(t, c, v, old), b, k, n)
             return
-        if s.trace_stores and not init: s.stores.append((p.b, o, n))
+        if s.trace_stores and not init: s.stores.append((p.b, o, n, s.locks_held))
         if b.kind == 'const' and not init: s.ub_now('write-to-const', f'store to constant global {b.tag}')
         s._store1(t, v, b, o, n)
 
@@ -510,7 +532,7 @@ class Machine:
             for k, v in enumerate(vals): s.store(IT(64), v, s.padd(d, 8 * k))
             return
         sb = s.chk(sp, n); db = s.chk(d, n, True)
-        if s.trace_stores: s.stores.append((d.b, d.o, n))
+        if s.trace_stores: s.stores.append((d.b, d.o, n, s.locks_held))
         if s.trace_loads: s.loads.append((sp.b, sp.o, n))
         if db.kind == 'const': s.ub_now('write-to-const', f'memcpy to constant global {db.tag}')
         cells = [(k - sp.o, c) for k, c in sb.cells.items() if k >= sp.o and k + c[0] <= sp.o + n]
@@ -532,7 +554,7 @@ class Machine:
         if isBV(val): raise Unsupported('memset symbolic value')
         if n == 0: return
         b = s.chk(d, n, True)
-        if s.trace_stores: s.stores.append((d.b, d.o, n))
+        if s.trace_stores: s.stores.append((d.b, d.o, n, s.locks_held))
         for k in [k for k in b.cells if k < d.o + n and k + b.cells[k][0] > d.o]: del b.cells[k]
         b.data[d.o:d.o + n] = bytes([val & 255]) * n
 
@@ -586,17 +608,24 @@ class Machine:
             if isBV(x): return mkbv(z3.SignExt(tt.w - x.w, x.e), tt.w)
             if isinstance(x, SB): return mkbv(z3.If(x.e, z3.BitVecVal((1 << tt.w) - 1, tt.w), z3.BitVecVal(0, tt.w)), tt.w)
             return sgn(x, ft.w) & ((1 << tt.w) - 1)
+        if op in ('sitofp', 'uitofp') and isinstance(tt, FloatTy) and tt.k == 'x86_fp80':
+            if not isinstance(x, int): raise Unsupported('int -> x86_fp80 of a symbolic value')
+            return LD(sgn(x, ft.w)) if op == 'sitofp' else LD(x)
         if op in ('sitofp', 'uitofp'):
             if isBV(x): return F(op, cond_key(x.e))
             if isinstance(x, SB): return F('ite', cond_key(x.e), (-1.0 if op == 'sitofp' else 1.0), 0.0)
             return float(sgn(x, ft.w)) if op == 'sitofp' else float(x)
+        if op in ('fptosi', 'fptoui') and isinstance(x, LD):
+            return int(x) & ((1 << tt.w) - 1)
         if op in ('fptosi', 'fptoui'):
             if isF(x): return s.fptoi_sym(op, x, tt)
             lim = 2.0 ** (tt.w - (1 if op == 'fptosi' else 0))
             if x != x or x >= lim or (x <= -lim - 1 if op == 'fptosi' else x <= -1.0): s.ub_now('fptoi-range', f"{op} of {x} out of range for i{tt.w}")
             return int(x) & ((1 << tt.w) - 1)
         if op in ('fpext', 'fptrunc'):
-            if isF(x): raise Unsupported("fpext sym")
+            if isF(x): raise Unsupported("fpext/fptrunc of a symbolic value")
+            if isinstance(tt, FloatTy) and tt.k == 'x86_fp80': return LD(x)
+            if isinstance(x, LD): return float(x) if tt.k == 'double' else struct.unpack('<f', struct.pack('<f', float(x)))[0]
             return x if op == 'fpext' else struct.unpack('<f', struct.pack('<f', x))[0]
         raise Unsupported(f"cast {op}")
 
@@ -782,7 +811,8 @@ class Machine:
                     s.cur = fr
                     p = const(None, a[1], R); old = s.load(a[2], p); v = const(a[2], a[3], R)
                     new = {'add': old + v, 'sub': old - v, 'xchg': v}[a[0]] & ((1 << a[2].w) - 1)
-                    s.store(a[2], new, p); R[ins.dst] = old
+                    ts = s.trace_stores; s.trace_stores = False       # atomic read-modify-write: not a plain (racy) store
+                    s.store(a[2], new, p); s.trace_stores = ts; R[ins.dst] = old
                 elif op == 'unreachable':
                     s.cur = fr; s.ub_now('unreachable', "reached 'unreachable'")
                 elif op == 'freeze':
@@ -913,7 +943,8 @@ class Machine:
             p = pred[1:] if pred[0] in 'ou' else pred   # REAL theory has no NaN: ordered == unordered
             e = {'eq': a == b, 'ne': a != b, 'lt': a < b, 'le': a <= b, 'gt': a > b, 'ge': a >= b}[p]
             return mksb(e)
-        un = (x != x) or (y != y)
+        if isinstance(x, LD) or isinstance(y, LD): x = LD(x); y = LD(y)
+        un = bool((x != x) or (y != y))
         if pred == 'oeq': return int(not un and x == y)
         if pred == 'one': return int(not un and x != y)
         if pred == 'olt': return int(not un and x < y)
@@ -1067,7 +1098,15 @@ def _copysign(m, x, y):
     if isF(x) or isF(y): return F('call', 'copysign', x, y)
     return math.copysign(x, y)
 
+def _ld1(name):
+    fn = getattr(libm, name); fn.restype = ctypes.c_longdouble; fn.argtypes = [ctypes.c_longdouble]
+    def h(m, x):
+        if isF(x): raise Unsupported(name + ' of symbolic long double')
+        return LD(fn(ctypes.c_longdouble(float(x))))
+    return h
 EXT = {
+    'logl': _ld1('logl'), 'log2l': _ld1('log2l'), 'floorl': _ld1('floorl'), 'ceill': _ld1('ceill'), 'sqrtl': _ld1('sqrtl'),
+    'llvm.floor.f80': _ld1('floorl'), 'llvm.ceil.f80': _ld1('ceill'), 'llvm.fabs.f80': (lambda m, x: abs(x)),
     '_Znwm': _new, '_Znam': _new, '_ZdlPv': _del, '_ZdaPv': _del, '_ZdlPvm': _del, '_ZdaPvm': _del, 'free': _del,
     'malloc': _new,
     'llvm.memcpy.p0i8.p0i8.i64': _memcpy, 'llvm.memmove.p0i8.p0i8.i64': _memmove, 'llvm.memset.p0i8.i64': _memset,
